@@ -901,6 +901,34 @@ def gen_same_abort_program(rng):
     requires the one that panicked -- with or without removing the cause in between (external resources, ids >= 50, edited
     while the session is alive); later sessions build everything.  Nothing may be left 'executing' by the aborted build."""
     p = Prog(); p.kind = 'panic'; p.exact_only = True
+    if rng.random() < 0.35:
+        # bottom-up family: inner(0) panics while r50 == 1; outer(1) requires inner only once r52 != 1 (a first-time require inside
+        # the bottom-up build, so that inner -- scheduled as well -- is executed NESTED in outer's require and aborts there);
+        # the same session is then used for requires of inner / outer / other, with or without removing the cause
+        p.sources = [50, 52]
+        p.tasks[0] = ('R', 50, 0, ('I', ('l', 2), ('P',), ('T', ('a',))))
+        p.tasks[1] = ('R', 52, 0, ('I', ('l', 2), ('T', ('a',)), ('Q', 0, 0, ('T', ('a',)))))
+        p.tasks[2] = ('Q', 0, 0, ('T', ('a',)))
+        steps = [['E', '50', '0'], ['E', '52', '1']]
+        first = [0, 1] + ([2] if rng.random() < 0.5 else [])
+        rng.shuffle(first)
+        steps += [['S', '1', 'q', str(t)] for t in first]
+        steps += [['E', '50', '1'], ['E', '52', '2']]
+        told = ['52', '50'] if rng.random() < 0.8 else ['52']
+        rng.shuffle(told)
+        ops = ['b', str(len(told))] + told
+        n = 1
+        for _ in range(rng.randint(1, 3)):
+            r = rng.random()
+            if r < 0.3: ops += ['e', '50', '2']
+            else: ops += ['q', str(rng.choice([0, 0, 1, 2]))]
+            n += 1
+        steps.append(['Z', str(n)] + ops)
+        steps.append(['E', '50', '2'])
+        order = [0, 1, 2]; rng.shuffle(order)
+        for t in order[:rng.randint(1, 3)]:
+            steps.append(['S', '1', 'q', str(t)])
+        return p, steps, {}
     p.sources = [50, 51]
     p.tasks[0] = ('R', 50, 0, ('I', ('l', 2), ('P',), ('T', ('a',))))                         # inner: panics while 50 == 1
     p.tasks[1] = ('Q', 0, 0, ('T', ('a',)))                                                    # outer: requires inner
